@@ -4,7 +4,7 @@ from . import common
 
 SPEC_THEOREM = 'Props/C06: editor_m (enc inputs) = enc (editor_t inputs); editors preserve well-formedness; documented errors append nothing'
 TRUSTED = ['Coq 8.16.1 kernel', 'translator', 'extraction + OCaml driver', 'Rust harness',
-           'hand-written model: TreeOps.v edits; concat / delete_by_name / delete_by_index / array_insert / build_array / build_object are offset-faithful byte editors (EditWalk.v over Iter.v + Builder.v) with refinement proofs (C06_*_bytes) and tied by correspondence incl. corrupt buffers; the other editors are view-level, tied by correspondence']
+           'specification TreeOps.v (tree edits); every editor and builder is an offset-faithful byte walker (EditWalk.v, EditWalk2.v over Iter.v + Builder.v) with a refinement proof (C06_*_bytes) and tied to the Rust function by correspondence incl. corrupt buffers']
 ASSUMPTIONS = ['inputs are canonical encodings of well-formed values']
 RULE = 'all editors x positions -len-2..len+2 and i32 extremes, key sets (subset/superset/disjoint/empty), key paths into and past scalars, nulls at every depth, empty and singleton containers, container-into-container insertion, interleaved-key merges, wide containers (12..100 members, shared / overlapping / disjoint key sets); non-trivial = result differs from the input and is not an error'
 
